@@ -2,7 +2,7 @@
 import itertools
 from lib import S, observe_call
 
-GEN = ["NameCleanerParams"]
+GEN = ["NameCleanerParams", "HeaderRowParams"]
 RULE = ("exhaustive over the 12-symbol alphabet {a Z 7 _ - . space tab LF CR e-acute !} up to length 4 (quick) / 5 (thorough); "
         "random Unicode strings up to length 40; headings pool incl. blank-only and line-break-only headings. For every string also the $anchor that "
         "HeadingRowSchemaLoader.header gives a sheet with that single heading, and whether Draft202012Validator.check_schema accepts that schema. Non-trivial = the model's loop ran at least once (branch = iteration count > 0); "
